@@ -167,6 +167,16 @@ def expr(n) -> str:
         finally:
             _LOCALS.clear()
             _LOCALS.update(saved | {g.target.id})
+    if isinstance(n, ast.ListComp) and len(n.generators) == 1 and len(n.generators[0].ifs) == 1 and not n.generators[0].is_async \
+            and isinstance(n.generators[0].target, ast.Name):
+        g = n.generators[0]
+        saved = set(_LOCALS)
+        _LOCALS.add(g.target.id)
+        try:
+            return "(.listCompIf %s %s %s %s)" % (expr(n.elt), _q(g.target.id), expr(g.iter), expr(g.ifs[0]))
+        finally:
+            _LOCALS.clear()
+            _LOCALS.update(saved | {g.target.id})
     if isinstance(n, ast.IfExp):
         return "(.ifE %s %s %s)" % (expr(n.test), expr(n.body), expr(n.orelse))
     if isinstance(n, ast.Dict) and not n.keys:
